@@ -434,7 +434,7 @@ def run(ck):
                    "exact diffusivity from the C02 corrector formula (gen.exact_unitcell_D)"]
     ck.theorems()
     rng = ck.rng
-    plan = [(2, 4)] * ck.n(14, 90) + [(2, 6)] * ck.n(0, 15) + [(3, 2)] * ck.n(4, 40) + [(3, 3)] * ck.n(1, 20) + [(3, 4)] * ck.n(0, 5)
+    plan = [(2, 4)] * ck.n(12, 90) + [(2, 6)] * ck.n(0, 15) + [(3, 2)] * ck.n(4, 40) + [(3, 3)] * ck.n(1, 20) + [(3, 4)] * ck.n(0, 5)
     plan += [("pyrope", 2)] * ck.n(1, 2)
     # history tier: one calculator object reused across several rate sets (named lattices with >= 2 jump types)
     plan += [("hist2", 4)] * ck.n(5, 30) + [("hist3", 2)] * ck.n(3, 16)
@@ -443,7 +443,7 @@ def run(ck):
     skipped = {"no-network": 0, "sublattice-network": 0}
     nsample = 0
     # sheared tier: a named crystal in its reduced description and in a non-reduced (unimodular shear, noreduce=True) description
-    plan += [("shear2", 4)] * ck.n(3, 16) + [("shear3", 4)] * ck.n(3, 12)
+    plan += [("shear2", 4)] * ck.n(2, 16) + [("shear3", 4)] * ck.n(2, 12)
     work = []
     for spec, Nmax in plan:
         nr = ck.nprng(rng.randrange(1 << 30))
